@@ -355,11 +355,39 @@ def b_bytes_fromhex(ex, s):
         raise PyRaise(make_exc('ValueError', str(e)))
 
 
+def b_all(ex, it):
+    for x in ex.iterate(it):
+        if not ex.truth(x):
+            return False
+    return True
+
+
+def b_any(ex, it):
+    for x in ex.iterate(it):
+        if ex.truth(x):
+            return True
+    return False
+
+
+def b_reversed(ex, it):
+    return list(ex.iterate(it))[::-1]
+
+
+def b_getattr(ex, obj, name, *default):
+    try:
+        return ex.getattr(ex.concretize(obj), name)
+    except PyRaise as pr:
+        if default and pr.exc_name() == 'AttributeError':
+            return default[0]
+        raise
+
+
 BUILTINS = {}
-for _n, _f in [('len', b_len), ('isinstance', b_isinstance), ('int', b_int), ('float', b_float), ('round', b_round),
+for _n, _f in [('all', b_all), ('any', b_any), ('reversed', b_reversed), ('getattr', b_getattr),
+               ('len', b_len), ('isinstance', b_isinstance), ('int', b_int), ('float', b_float), ('round', b_round),
                ('bool', b_bool), ('str', b_str), ('bytes', b_bytes), ('bytearray', b_bytearray), ('range', b_range),
                ('min', b_min), ('max', b_max), ('sum', b_sum), ('sorted', b_sorted), ('list', b_list),
-               ('tuple', b_tuple), ('set', b_set), ('dict', b_dict), ('abs', b_abs), ('enumerate', b_enumerate),
+               ('tuple', b_tuple), ('set', b_set), ('frozenset', b_set), ('dict', b_dict), ('abs', b_abs), ('enumerate', b_enumerate),
                ('zip', b_zip), ('map', b_map), ('next', b_next), ('type', b_type), ('hasattr', b_hasattr),
                ('globals', b_globals), ('open', b_open), ('print', b_print)]:
     BUILTINS[_n] = Builtin(_n, _f)
